@@ -71,7 +71,10 @@ pub fn env_strategy() -> BoxedStrategy<EnvCase> {
         "[a-z0-9]{1,16}",
         proptest::option::of(any::<u32>()),
         "[a-z0-9]{1,12}",
-        proptest::collection::vec(("[a-z]{3,6}", prop_oneof![3 => any::<u128>(), 2 => Just(0u128), 1 => Just(1u128), 1 => Just(u128::MAX)]), 0..3),
+        proptest::collection::vec(
+            (prop_oneof![2 => "[a-z]{3,6}", 1 => Just("uatom".to_string()), 1 => Just("uosmo".to_string())], prop_oneof![3 => any::<u128>(), 2 => Just(0u128), 1 => Just(1u128), 1 => Just(u128::MAX)]),
+            0..6,
+        ),
         0u64..1_000_000,
         proptest::bool::weighted(0.3),
     )
